@@ -2,7 +2,7 @@
    Only statements closed by [exact lemma], non-vacuity / table examples computed from the regenerated
    Gen/GenNetworks.v, refutation witnesses for the code before the repairs and for the one class still open,
    and Print Assumptions.  All theorems are about Model/KeyFormat.v with fixes/C12-1 ([wifcheck] = true where it
-   matters) and for both settings of the Base58 lower-casing switch [fold]. *)
+   matters) and for both settings of the Base58 lower-casing switch [fold] (false in the current tree). *)
 From Coq Require Import ZArith List Bool.
 From Coq Require String.
 From Coq.Strings Require Import Byte.
@@ -62,13 +62,12 @@ Example wif_version_candidates :
   resolve_networks (lib_networks_by_wif [xb0]) = Err EAmbiguous.
 Proof. vm_compute. repeat split; reflexivity. Qed.
 
-(* the code before fixes/C12-1: the uncompressed WIF of a secret ending in 01 is read as the compressed WIF of
-   the 31-byte number in front of it *)
+(* the code before fixes/C12-1: the uncompressed WIF of a secret ending in 01 is classified wif_compressed and
+   Key(text) fails (before the C11 repair of the 32-byte check it returned the 31-byte number in front of the 01) *)
 Example wif_roundtrip_old_code_refuted :
   match lib_wif wif_bug_km with
-  | Ok w => lib_key_import false false (KStr w) None true None =
-            Ok {| ko_private := true; ko_key := repeat x11 31; ko_compressed := true;
-                  ko_network := "bitcoin"%string; ko_format := FWifCompressed |}
+  | Ok w => lib_key_import false false (KStr w) None true None = Err EKey /\
+            (exists i, lib_get_key_format false false (KStr w) None = KfOk i /\ kf_format i = FWifCompressed)
   | Err _ => False
   end.
 Proof. exact KeyFormatWif.wif_roundtrip_old_code_refuted. Qed.
@@ -177,18 +176,17 @@ Example xkey_concrete :
   end.
 Proof. vm_compute. reflexivity. Qed.
 
-(* the code before fixes/C12-2: the "extended public key" of an uncompressed key carries the 65-byte point; HDKey()
-   reads 04 || x as if it were a compressed key *)
+(* the code before fixes/C12-2: the "extended public key" of an uncompressed key carries the 65-byte point — 114
+   bytes that neither HDKey() nor HDKey.from_wif() accept (before the C11 repair of the length check HDKey() read
+   04 || x as a compressed key) *)
 Example xkey_uncompressed_old_code_refuted :
   let km := {| km_private := false; km_secret := []; km_pubc := x02 :: repeat x33 32;
                km_pubu := x04 :: repeat x33 32 ++ repeat x44 32; km_compressed := false; km_chain := repeat x5a 32;
                km_depth := 0; km_fp := repeat x00 4; km_child := 0; km_network := "bitcoin"%string;
                km_witness := "legacy"%string; km_multisig := false |} in
   match lib_xkey false km false with
-  | Ok w => match lib_hdkey_import false true (KStr w) None None false true with
-            | Ok h => ko_key (ho_key h) = x04 :: repeat x33 32 /\ ko_compressed (ho_key h) = true
-            | Err _ => False
-            end
+  | Ok w => lib_hdkey_import false true (KStr w) None None false true = Err EKey /\
+            lib_hdkey_from_wif false true w None None true = Err EKey
   | Err _ => False
   end.
 Proof. vm_compute. split; reflexivity. Qed.
